@@ -46,6 +46,15 @@ def check(cond, msg, *args):
         raise Violation(msg)
 
 
+def conc(i, lo, hi):
+    # concretise a small symbolic int by case split (one path per value), so
+    # that later float arithmetic / formatting sees a plain int
+    for v in range(lo, hi + 1):
+        if i == v:
+            return v
+    raise AssertionError('conc: %r outside [%d, %d]' % (i, lo, hi))
+
+
 def trace(*ev):
     if TRACING:
         TRACE.append(repr(ev) if len(ev) != 1 else repr(ev[0]))
@@ -114,6 +123,7 @@ def obligation(params, shapes=None, partition=None, timeout=None, twins=('main',
 #
 class Null(object):
     """log / prof stand-in: every method is a no-op, args are never formatted."""
+    _debug_level = 0
     def __getattr__(self, name):
         return _noop
     def __bool__(self):
